@@ -358,14 +358,18 @@ void Model::set_active_by_history(int mi, int static_ev_type, bool /*wrapped*/) 
         if (mp()) I.pool.clear();   // C20 statement: pool reset on (no-history) entry
     }
 }
-void Model::enter_simple(int mi, int s, const MEv& e, int trigger) {
+void Model::enter_simple(int mi, int s, const MEv& e, int trigger, bool by_row) {
     const DState& st = S(s);
     call(K_N, s, mi, info_static(e, trigger));
     if (st.kind == SK_EXIT_PT) {
         // C09: forward the (converted) event to the enclosing machine within the same top-level call
         MEv f{(int16_t)st.exit_event, e.occ};
-        if (mp()) m_do_defer(0, f, false);                          // [M] root.enqueue_event
-        else if (M(mi).parent >= 0) b_process_internal(M(mi).parent, f, SRC_DIRECT); // [B] container.process_event
+        // [M] root.enqueue_event, done by the transition that targets the exit point: an exit point that the history
+        // policy restores is entered without forwarding (DESIGN.md, finding KF-4); [B] forwards from the entry itself
+        if (mp()) { if (by_row) m_do_defer(0, f, false); }
+        // [B] root.process_event: the constructor of the outermost machine re-points the forwarders of every nesting
+        // level to itself (set_containing_sm recursion), which is also what backmp11 does by design
+        else if (M(mi).parent >= 0) b_process_internal(0, f, SRC_DIRECT);
     }
 }
 void Model::enter_target(int mi, const DRow& r, const MEv& e) {
@@ -373,7 +377,7 @@ void Model::enter_target(int mi, const DRow& r, const MEv& e) {
     if (to.kind == SK_SUB) {
         if (mp()) m_on_entry(to.sub, r.tkind == TK_STATE ? nullptr : &r, e, r.trigger, mi);
         else b_do_entry(to.sub, r.tkind == TK_STATE ? nullptr : &r, e, r.trigger, mi);
-    } else enter_simple(mi, r.tgt_owner, e, r.trigger);
+    } else enter_simple(mi, r.tgt_owner, e, r.trigger, true);
 }
 
 // chain of candidates for one region: first handled wins (C01), each guard once
